@@ -19,8 +19,14 @@ CreateRecModelMgr(RecCommon &cc, Env &e, pre::BasicValuePresolver *&pPre) {
   pPre = &pcvt->GetFlatCvt().GetValuePresolver();
   if (cc.st())
     cc.st()->rangecon = [pcvt](bool quad, int i) -> std::string {
-      if (quad) return rec::data(pcvt->GetFlatCvt().template GetConstraint<QuadConRange>(i));
-      return rec::data(pcvt->GetFlatCvt().template GetConstraint<LinConRange>(i));
+      // "own": the range constraint the entry belongs to; "used": the constraint that
+      // RangeCon2Slack::PresolveSolutionEntry really reads (always GetConstraint<LinConRange>(i), see range_con.h:
+      // SlackLink = RangeLinCon2Slack also for the quadratic converter); null if that index does not exist (the code then reads out of bounds)
+      auto &cvt = pcvt->GetFlatCvt();
+      int nlinrange = (int)cvt.GetValueNode((LinConRange *)nullptr).Size();
+      std::string used = i < nlinrange ? rec::data(cvt.template GetConstraint<LinConRange>(i)) : std::string("null");
+      std::string own = quad ? rec::data(cvt.template GetConstraint<QuadConRange>(i)) : used;
+      return "{\"own\":" + own + ",\"used\":" + used + "}";
     };
   return res;
 }
